@@ -206,24 +206,22 @@ impl<KT: DbMapKeyType> DbXxxBase for FileDbXxxInner<KT> {
     }
     #[inline]
     fn sync_all(&mut self) -> Result<()> {
-        if self.is_dirty() {
-            // save all data and meta
-            self.val_file.sync_all()?;
-            self.key_file.sync_all()?;
-            self.htx_file.sync_all()?;
-            self.dirty = false;
-        }
+        // save all data and meta.
+        // the OS sync is requested even when nothing is buffered (e.g. after a flush).
+        self.val_file.sync_all()?;
+        self.key_file.sync_all()?;
+        self.htx_file.sync_all()?;
+        self.dirty = false;
         Ok(())
     }
     #[inline]
     fn sync_data(&mut self) -> Result<()> {
-        if self.is_dirty() {
-            // save all data
-            self.val_file.sync_data()?;
-            self.key_file.sync_data()?;
-            self.htx_file.sync_data()?;
-            self.dirty = false;
-        }
+        // save all data.
+        // the OS sync is requested even when nothing is buffered (e.g. after a flush).
+        self.val_file.sync_data()?;
+        self.key_file.sync_data()?;
+        self.htx_file.sync_data()?;
+        self.dirty = false;
         Ok(())
     }
 }
